@@ -22,7 +22,7 @@ PROPERTY = "C12"
 LEVEL = "fault_enumeration"
 DEADLINE = 300
 RULE = ("valid cases from vlib.mapgen / vlib.daggen (VERIF_SEED) x single-fault mutation operators {duplicate output, "
-        "output named like own parameter, back edge (cycle), inconsistent defaults, MapSpec naming a non-parameter, MapSpec "
+        "output named like own parameter, back edge (cycle), inconsistent defaults (at construction, and introduced later by updating one member function in place), MapSpec naming a non-parameter, MapSpec "
         "naming a wrong output, axis-name swap in one consumer, rank change in one consumer, dropped input, added input, "
         "resized zipped axis, changed input rank, scalar for a mapped input, unknown storage (string / per-output dict), "
         "executor with parallel=False, dropped / added keyword in pipeline(...) and run} at every applicable position; "
@@ -152,6 +152,11 @@ def construct_faults(case, rng):
         if len(us) >= 2:
             yield "inconsistent-defaults", f"{p}:{us[0]},{us[1]}", copy.deepcopy(case), {
                 "extra": {us[0]: {"defaults": {p: "D1"}}, us[1]: {"defaults": {p: "D2"}}}}
+            # consistent at construction, made inconsistent afterwards by updating ONE member function in place
+            second = next(f for f in fs if f["name"] == us[1])
+            yield "inconsistent-defaults-after-member-update", f"{p}:{us[1]}", copy.deepcopy(case), {
+                "extra": {us[0]: {"defaults": {p: "D1"}}, us[1]: {"defaults": {p: "D1"}}},
+                "_post": (second["outs"][0], {p: "D2"})}
             break
 
 
@@ -227,9 +232,13 @@ def run_map_batch(v, desc, scratch):
             ex = None
             w = dict(case=mapgen.describe(mcase), operator=op, position=label, map_kwargs={k: str(x) for k, x in mkw.items()})
             err = None
+            bkw = dict(bkw)
+            post = bkw.pop("_post", None)
             try:
                 with quiet():
                     p = mapgen.build_pipeline(mcase, log=log, **bkw)
+                    if post is not None:
+                        p[post[0]].update_defaults(post[1])
                     kw = dict(run_folder=folder, internal_shapes=mapgen.internal_shapes_arg(mcase), parallel=False,
                               storage="file_array", cleanup=False)
                     kw.update(mkw)
@@ -293,16 +302,25 @@ def run_call_batch(v, desc, scratch):
                 if r not in case["defaults"]:
                     faults.append(("dropped-keyword", r, {k: x for k, x in full.items() if k != r}))
             faults.append(("added-keyword", "zz_extra", {**full, "zz_extra": "q"}))
+            shared = [r for r in roots if r in case["defaults"] and sum(1 for f in case["funcs"] if r in f["defaults"] and r not in f["bound"]) >= 2]
+            if shared:
+                faults.append(("inconsistent-defaults-after-member-update", shared[0], {k: x for k, x in full.items() if k != shared[0]}))
             for op, label, K in faults:
                 for form in ("call", "run"):
+                    pp = p
+                    if op == "inconsistent-defaults-after-member-update":
+                        with quiet():
+                            pp = daggen.build_pipeline(case, log=log)
+                            tgt = next(f for f in case["funcs"] if label in f["defaults"] and label not in f["bound"])
+                            pp[tgt["outs"][0]].update_defaults({label: "OTHER"})
                     probes.log_clear(log)
                     err = None
                     try:
                         with quiet():
                             if form == "call":
-                                p(out, **K)
+                                pp(out, **K)
                             else:
-                                p.run(out, kwargs=dict(K), full_output=rng.random() < 0.5)
+                                pp.run(out, kwargs=dict(K), full_output=rng.random() < 0.5)
                     except Exception as e:  # noqa: BLE001
                         err = e
                     calls = probes.log_read(log)
@@ -325,7 +343,7 @@ def run_case(desc):
                                        "example": keys[:3]} if desc["start"] % 120 == 0 else None)
 
 
-OPS = ["duplicate-output", "output-named-like-own-parameter", "cycle", "inconsistent-defaults", "mapspec-names-non-parameter",
+OPS = ["duplicate-output", "output-named-like-own-parameter", "cycle", "inconsistent-defaults", "inconsistent-defaults-after-member-update", "mapspec-names-non-parameter",
        "mapspec-names-wrong-output", "axis-name-swap-in-consumer", "rank-change-in-consumer", "dropped-input", "added-input",
        "resized-zipped-axis", "changed-input-rank", "scalar-for-mapped-input", "unknown-storage", "executor-with-parallel-false",
        "dropped-keyword", "added-keyword"]
@@ -334,7 +352,7 @@ OPS = ["duplicate-output", "output-named-like-own-parameter", "cycle", "inconsis
 def finalize(agg, tier, seed):
     floors = []
     for op in OPS:
-        need = 30 if op in ("inconsistent-defaults", "resized-zipped-axis", "axis-name-swap-in-consumer", "rank-change-in-consumer") else 100
+        need = 30 if op in ("inconsistent-defaults", "inconsistent-defaults-after-member-update", "resized-zipped-axis", "axis-name-swap-in-consumer", "rank-change-in-consumer") else 100
         if agg.counters.get(f"op:{op}", 0) < need:
             floors.append(f"operator {op} applied {agg.counters.get(f'op:{op}', 0)} times (< {need})")
     if agg.counters.get("snapshot_comparisons", 0) < 1000:
